@@ -17,7 +17,8 @@ use serde_json::{Value, json};
 use std::path::Path;
 use std::process::Command;
 
-const BUCKETS: [&str; 3] = ["bucket-a", "bucket-b", "bucket-c"];
+// (bucket-a-private: a name that merely continues the addressed bucket's name)
+const BUCKETS: [&str; 4] = ["bucket-a", "bucket-b", "bucket-c", "bucket-a-private"];
 const KEY_OPS: &[&str] = &["GetObject", "GetObject/range", "HeadObject", "PutObject", "DeleteObject", "DeleteObjects", "CopyObject/dest", "CopyObject/source", "ListObjectsV2/prefix", "CreateMultipartUpload"];
 
 #[derive(Clone, Debug, serde::Serialize, serde::Deserialize)]
